@@ -10,7 +10,7 @@ os.environ["DEVELOPMENT"] = "True"
 warnings.filterwarnings("ignore")
 
 COQDIR = os.path.join(VERIF, "coq")
-DRIVER = os.path.join(COQDIR, "ocaml", "driver")
+DRIVER = os.environ.get("VERIF_DRIVER") or os.path.join(COQDIR, "ocaml", "driver")
 SEED = int(os.environ.get("VERIF_SEED", "20260926"))
 TIER = os.environ.get("VERIF_TIER", "quick")
 NPROC = min(16, os.cpu_count() or 4)
